@@ -252,8 +252,68 @@ func (g *Gen) scenSwitch() []N {
 	return []N{Switch(Num(g.pick(4)), cs...), g.hcall(Str("after-switch"))}
 }
 
+// accessors, attributes and the Object constructor functions (8.12, 15.2.3)
+func (g *Gen) scenObject() []N {
+	o := g.fresh("oa")
+	lit := Obj("d", g.smallVal())
+	lit = WithAccessor(lit, "get", "g", Fn("", nil, g.hcall(Str("get-g")), Return(Bin("+", Dot(This(), "d"), Num(1)))))
+	if g.chance(60) {
+		lit = WithAccessor(lit, "set", "g", Fn("", []string{"v"}, g.hcall(Str("set-g"), Id("v")), Expr(Asg("=", Dot(This(), "d"), Id("v")))))
+	}
+	if g.chance(40) {
+		lit = WithAccessor(lit, "set", "s", Fn("", []string{"v"}, g.hcall(Str("set-s"), Id("v"))))
+	}
+	out := []N{Var(o, lit)}
+	od := func(name string, args ...N) N { return Call(Dot(Id("Object"), name), args...) }
+	steps := []func() N{
+		func() N { return g.hcall(Dot(Id(o), "g")) },
+		func() N { return Expr(Asg("=", Dot(Id(o), "g"), g.smallVal())) },
+		func() N { return Expr(Asg("=", Dot(Id(o), "s"), g.smallVal())) },
+		func() N { return g.hcall(Dot(Id(o), "s"), Dot(Id(o), "d")) },
+		func() N {
+			return Expr(od("defineProperty", Id(o), Str([]string{"d", "n", "g"}[g.pick(3)]),
+				Obj("value", g.smallVal(), "writable", Bool(g.chance(50)), "enumerable", Bool(g.chance(50)), "configurable", Bool(g.chance(50)))))
+		},
+		func() N {
+			return Expr(od("defineProperty", Id(o), Str("a"+[]string{"1", "2"}[g.pick(2)]),
+				Obj("get", Fn("", nil, Return(Num(7))), "enumerable", Bool(g.chance(50)), "configurable", Bool(g.chance(50)))))
+		},
+		func() N { return Expr(od("defineProperty", Id(o), Str("d"), Obj("enumerable", Bool(false)))) },
+		func() N { return Expr(od([]string{"freeze", "seal", "preventExtensions"}[g.pick(3)], Id(o))) },
+		func() N { return g.hcall(od("isFrozen", Id(o)), od("isSealed", Id(o)), od("isExtensible", Id(o))) },
+		func() N { return g.hcall(Dot(od("keys", Id(o)), "length"), Dot(od("getOwnPropertyNames", Id(o)), "length")) },
+		func() N { return Expr(Asg("=", Dot(Id(o), "fresh"), Num(1))) },
+		func() N { return g.hcall(Un("delete", Dot(Id(o), []string{"d", "g", "n"}[g.pick(3)]))) },
+		func() N {
+			d := g.fresh("ds")
+			return Block(Var(d, od("getOwnPropertyDescriptor", Id(o), Str([]string{"d", "g", "n", "zz"}[g.pick(4)]))),
+				g.hcall(Un("typeof", Id(d)), Cond(Id(d), Dot(Id(d), "writable"), Num(0)), Cond(Id(d), Dot(Id(d), "enumerable"), Num(0)), Cond(Id(d), Un("typeof", Dot(Id(d), "get")), Num(0))))
+		},
+		func() N {
+			k := g.fresh("k")
+			return ForIn(true, k, Id(o), Block(g.hcall(Id(k))))
+		},
+		func() N {
+			c := g.fresh("ch")
+			return Block(Var(c, od("create", Id(o))), Expr(Asg("=", Dot(Id(c), "g"), Num(5))), g.hcall(Dot(Id(c), "g"), Dot(Id(c), "d"),
+				Bin("===", od("getPrototypeOf", Id(c)), Id(o)), Call(Dot(Id(c), "hasOwnProperty"), Str("g"))))
+		},
+	}
+	for i, n := 0, 3+g.pick(6); i < n; i++ {
+		st := steps[g.pick(len(steps))]()
+		if g.chance(40) {
+			st = Try([]N{st}, "e", []N{g.hcall(Str("threw"), Bin("instanceof", Id("e"), Id("TypeError")))}, true, nil, false)
+		}
+		out = append(out, st)
+	}
+	out = append(out, g.hcall(Dot(Id(o), "d"), Dot(Id(o), "g")))
+	return out
+}
+
 func (g *Gen) scenario() []N {
-	switch g.pick(8) {
+	switch g.pick(9) {
+	case 8:
+		return g.scenObject()
 	case 0:
 		return g.scenArguments()
 	case 1:
